@@ -12,8 +12,13 @@ atomic beyond a single lock region of `ractor/src/pg.rs`:
   why exits are keyed by actor), `demonitor_all` (`demTake`, then one forward entry per step),
   `leave_all` (`take`, one forward entry per step, `finish` = `remove_empty_actor_relations` + the
   notifications);
-* any number of caller threads run `join_scoped` (unlocked status filter / entry-lock region /
-  clean-up region / notification region), `leave_scoped` (entry region / notification region),
+* any number of caller threads run `join_scoped` (unlocked status filter / the entry-lock region, itself
+  stepped one relations lock at a time: take the group entry — `joinLock` —, then for each distinct
+  actor of the call its relations lock with the status re-check and the reverse-index insert —
+  `joinOne` —, then the forward insert of the accepted actors, the scope index, the recipients and the
+  release of the entry — `joinCommit`; while the entry is held every other region that needs the same
+  group entry is blocked, but the relations-lock-only regions of an exit (`mark`, `demTake`, `take`)
+  and everything on other keys run in between / clean-up region / notification region), `leave_scoped` (entry region / notification region),
   `monitor` and `monitor_scope` (`get_or_create_actor_relations` / entry + relations lock region /
   status re-check region), `demonitor`, `demonitor_scope` (one region);
 * a schedule is a list of `Tid`s: which exit takes which of its next regions (the iteration order
@@ -38,6 +43,7 @@ open AList Pg Pg.Fine
 inductive Pc
   | join (s g : Nat) (as : List Nat)                               -- before the unlocked status filter
   | joinFiltered (s g : Nat) (as : List Nat)                       -- `pg.join.filtered`: before the entry-lock region
+  | joinIn (s g : Nat) (as : List Nat) (todo : List Nat)           -- inside the entry-lock region: actors still to check
   | joinEntered (s g : Nat) (as : List Nat) (p : Option Pending)   -- `pg.join.entered`: before the clean-up region
   | notify (p : Pending)                                           -- `pg.join.notify` / `pg.leave.notify`
   | leave (s g : Nat) (as : List Nat)
@@ -72,6 +78,10 @@ structure G where
   /-- phase of every exit that has started (absent = `live`) -/
   exits : List (Nat × Phase)
   thr : List Pc
+  /-- the group entries held by a `join_scoped` in the middle of its entry-lock region, each with the
+  holder's local variables: the call's `actors` and its `accepted` set so far (reverse index already
+  updated, forward insert still to come) -/
+  locks : List (Key × (List Nat × List Nat))
   /-- ghost: every notification sent so far -/
   sent : List Ev
   /-- ghost: one record per membership change, recipients read at the instant of the change -/
@@ -79,6 +89,12 @@ structure G where
   deriving Repr
 
 def phaseOf (g : G) (a : Nat) : Phase := (get g.exits a).getD .live
+
+/-- the actors a `join_scoped` holding entry `k` has accepted so far -/
+def accOf (g : G) (k : Key) : List Nat := ((get g.locks k).map (·.2)).getD []
+/-- the actors that call was given (after the unlocked filter) -/
+def asOf (g : G) (k : Key) : List Nat := ((get g.locks k).map (·.1)).getD []
+def locked (g : G) (k : Key) : Bool := (get g.locks k).isSome
 
 /-- `entry(key).or_default()` with nothing added: the group entry exists afterwards -/
 def touchGroup (st : State) (k : Key) : State :=
@@ -103,9 +119,9 @@ def callStep (st : State) : Pc → State × Pc × List Pending × List Ev
   | .join s g as =>
     let as' := as.filter (alive st)
     (st, if as' = [] then .done else .joinFiltered s g as', [], [])
-  | .joinFiltered s g as =>
-    let r := joinEntry st s g as
-    (r.1, .joinEntered s g as r.2, r.2.toList, [])
+  -- the entry-lock region of `join_scoped` needs the lock table: stepped by `step` itself
+  | .joinFiltered s g as => (st, .joinFiltered s g as, [], [])
+  | .joinIn s g as todo => (st, .joinIn s g as todo, [], [])
   | .joinEntered s g as p =>
     (joinCleanup st s g as, match p with | none => .done | some p => .notify p, [], [])
   | .notify p => (st, .done, [], notifyPending p)
@@ -138,10 +154,40 @@ def exEvs (st : State) (a : Nat) (ph : Phase) : ExReg → List Ev
     | _ => []
   | _ => []
 
+/-- the group entry a caller's next region has to take (`none`: it takes no group entry) -/
+def needsKey (st : State) : Pc → Option Key
+  | .joinFiltered s g _ => some (s, g)
+  | .joinEntered s g _ none => some (s, g)      -- the empty entry created for nobody is removed again
+  | .leave s g _ => some (s, g)
+  | .monitorRel g _ => some (defaultScope, g)
+  | .monitorRecheck g b => if alive st b then none else some (defaultScope, g)
+  | .demonitor g _ => some (defaultScope, g)
+  | _ => none
+
+def exNeedsKey : ExReg → Option Key
+  | .demKey k => some k
+  | .lvKey k => some k
+  | _ => none
+
+/-- `joinOne`: one iteration of `join_scoped`'s loop for an actor that passes the status re-check under
+its relations lock: the reverse-index insert (`accepted.insert` is the lock-table update in `step`) -/
+def joinOne (st : State) (k : Key) (x : Nat) : State :=
+  { st with rel := relUpdate st.rel x (fun r => { r with mem := ins k r.mem }) }
+
+/-- `joinCommit`: the forward insert of the accepted actors, the scope index (the group entry is still
+held); `joined` keeps the call's duplicates -/
+def joinCommit (st : State) (k : Key) (joined : List Nat) : State :=
+  if joined = [] then st
+  else
+    let gs := (get st.map k).getD ⟨[], []⟩
+    { st with map := set st.map k ⟨joined.foldl (fun m a => ins a m) gs.members, gs.listeners⟩,
+              index := addToIndex st.index k }
+
 def step (g : G) : Tid → G
   | .ex a r =>
-    -- the swap of the status word returned `≥ Stopping`: somebody else runs (ran) the clean-up
-    if r = .mark ∧ a ∈ g.st.dead then g
+    -- the swap of the status word returned `≥ Stopping`: somebody else runs (ran) the clean-up;
+    -- or the region needs a group entry that a `join_scoped` holds: blocked
+    if (r = .mark ∧ a ∈ g.st.dead) ∨ (exNeedsKey r).any (locked g) then g
     else
       let ph := phaseOf g a
       let fs := fstep a ⟨g.st, ph⟩ r.toFOp
@@ -151,16 +197,36 @@ def step (g : G) : Tid → G
     match g.thr[i]? with
     | none => g
     | some pc =>
-      let r := callStep g.st pc
-      { g with st := r.1, thr := g.thr.set i r.2.1, changes := g.changes ++ r.2.2.1, sent := g.sent ++ r.2.2.2 }
+      if (needsKey g.st pc).any (locked g) then g      -- blocked on a held group entry
+      else
+      match pc with
+      | .joinFiltered s g' as =>
+        -- `joinLock`: `map.entry(key).or_default()`
+        { g with st := touchGroup g.st (s, g'), locks := set g.locks (s, g') (as, []),
+                 thr := g.thr.set i (.joinIn s g' as as.eraseDups) }
+      | .joinIn s g' as (x :: todo) =>
+        -- (`x` comes from the call's own `actors`: `x ∈ asOf …` always holds on a real run)
+        let ok := alive g.st x && (asOf g (s, g')).contains x
+        { g with st := if ok then joinOne g.st (s, g') x else g.st,
+                 locks := if ok then set g.locks (s, g') (asOf g (s, g'), accOf g (s, g') ++ [x]) else g.locks,
+                 thr := g.thr.set i (.joinIn s g' as todo) }
+      | .joinIn s g' as [] =>
+        let joined := (asOf g (s, g')).filter (accOf g (s, g')).contains
+        let p : Option Pending := if joined = [] then none else some ⟨true, s, g', joined, recipients g.st (s, g')⟩
+        { g with st := joinCommit g.st (s, g') joined, locks := erase g.locks (s, g'),
+                 thr := g.thr.set i (.joinEntered s g' as p), changes := g.changes ++ p.toList }
+      | _ =>
+        let r := callStep g.st pc
+        { g with st := r.1, thr := g.thr.set i r.2.1, changes := g.changes ++ r.2.2.1, sent := g.sent ++ r.2.2.2 }
 
 def run (g : G) (sched : List Tid) : G := sched.foldl step g
 
 /-- start: the threads' calls not yet begun, no exit started, nothing sent -/
-def start (st : State) (calls : List Pc) : G := ⟨st, [], calls, [], []⟩
+def start (st : State) (calls : List Pc) : G := ⟨st, [], calls, [], [], []⟩
 
 /-- nothing is in flight: every caller thread has returned and every started exit has finished -/
-def atRest (g : G) : Prop := (∀ pc ∈ g.thr, pc = .done) ∧ (∀ a, phaseOf g a = .live ∨ phaseOf g a = .done)
+def atRest (g : G) : Prop :=
+  (∀ pc ∈ g.thr, pc = .done) ∧ (∀ a, phaseOf g a = .live ∨ phaseOf g a = .done) ∧ g.locks = []
 
 /-! ### what is owed: the notifications the in-flight operations have still to send -/
 
@@ -180,7 +246,7 @@ def owed (g : G) : List Ev := g.thr.flatMap pcOwed ++ g.exits.flatMap (fun p => 
 /-- the abstract effect of a region on the set of `(scope, group, actor)` triples -/
 inductive Lin
   | none
-  | join (s g : Nat) (as : List Nat)     -- the actors of `as` that are alive at this instant join
+  | join (s g : Nat) (joined : List Nat) -- the actors the call accepted (each alive at its own status re-check) join
   | leave (s g : Nat) (as : List Nat)
   | leave1 (k : Key) (a : Nat)           -- the automatic leave of an exiting actor, one group
   deriving DecidableEq, Repr
@@ -188,26 +254,26 @@ inductive Lin
 def linOf (g : G) : Tid → Lin
   | .ex a r =>
     match r, phaseOf g a with
-    | .lvKey k, .leaving mk _ => if k ∈ mk then .leave1 k a else .none
+    | .lvKey k, .leaving mk _ => if k ∈ mk ∧ ¬ locked g k then .leave1 k a else .none
     | _, _ => .none
   | .call i =>
     match g.thr[i]? with
-    | some (.joinFiltered s g' as) => .join s g' as
-    | some (.leave s g' as) => .leave s g' as
+    | some (.joinIn s g' _ []) => .join s g' ((asOf g (s, g')).filter (accOf g (s, g')).contains)
+    | some (.leave s g' as) => if locked g (s, g') then .none else .leave s g' as
     | _ => .none
 
 /-- the specification's transition of the membership relation at a linearisation point -/
-def specLin (before : Key → Nat → Prop) (isAlive : Nat → Prop) : Lin → Key → Nat → Prop
+def specLin (before : Key → Nat → Prop) : Lin → Key → Nat → Prop
   | .none, k, x => before k x
-  | .join s g as, k, x => before k x ∨ (k = (s, g) ∧ x ∈ as ∧ isAlive x)
+  | .join s g joined, k, x => before k x ∨ (k = (s, g) ∧ x ∈ joined)
   | .leave s g as, k, x => before k x ∧ ¬ (k = (s, g) ∧ x ∈ as)
   | .leave1 k' a, k, x => before k x ∧ ¬ (k = k' ∧ x = a)
 
 /-- the abstract membership relation evolved along a schedule: at every step the specification's
-transition for the step's linearised operation (the actors' liveness is read at that instant) -/
+transition for the step's linearised operation -/
 def absRun (m : Key → Nat → Prop) (g : G) : List Tid → (Key → Nat → Prop)
   | [] => m
-  | t :: ts => absRun (specLin m (fun x => x ∉ g.st.dead) (linOf g t)) (step g t) ts
+  | t :: ts => absRun (specLin m (linOf g t)) (step g t) ts
 
 /-! ### the window predicate, decidable, for the run-time oracle
 
